@@ -8,14 +8,20 @@ import Mathlib.Tactic.Linarith
 
 namespace Homonim
 
-/-- **Precedence, per key**: a value given on the command line wins over the configuration file; a file value wins
-    over the default; without a file value the parsed parameter stays -/
+/-- **Precedence, per key**: a value given on the command line wins over the configuration file - also an explicit null
+    (`--nodata null` parses to None; before the repair of finding D60 the file's value replaced it); a file value wins over the
+    default; without a file value the parsed parameter stays -/
 theorem merge_precedence {α : Type} (v d c : α) :
     (mergeKey ⟨some v, .commandline⟩ (some c)).val = some v ∧
     (mergeKey ⟨some d, .default⟩ (some c)).val = some c ∧
     (mergeKey (⟨some d, .default⟩ : PVal α) none).val = some d ∧
-    (mergeKey (⟨none, .commandline⟩ : PVal α) (some c)).val = some c := by
+    (mergeKey (⟨none, .commandline⟩ : PVal α) (some c)).val = none ∧
+    (mergeKey (⟨none, .default⟩ : PVal α) (some c)).val = some c := by
   simp [mergeKey]
+
+/-- whatever was given on the command line is what reaches the API, for every value (None included) and every file -/
+theorem commandline_wins {α : Type} (v : Option α) (conf : Option α) : mergeKey ⟨v, .commandline⟩ conf = ⟨v, .commandline⟩ := by
+  cases conf <;> simp [mergeKey]
 
 /-- a key supplied by the file counts as given (it is marked as command-line sourced), which is what switches off the
     default creation options when `driver` or `creation_options` come from the file -/
